@@ -1,9 +1,170 @@
 import Rare.Drv.Expr
+import Rare.Model.C09
+/-!
+Line-protocol ops of C09.
+
+  expr  <opt> <template> <elems> <keys>          shared op (standard function registry)
+  tpl   <opt> <template raw bytes> <elems> <keys> compile + evaluate with the probe registry; the template
+                                                  may be invalid UTF-8 (decoded the way Go's `[]rune(s)` does)
+  lit   <opt> <text raw bytes>                    `escapeLit` of the text, compiled and evaluated
+  split <text raw bytes>                          `splitTokenizedArguments`
+  tree  <opt> <tokens> <elems> <keys>             a serialised (tree, style): the SPEC prints it, the model
+                                                  compiles the print; the answer also carries `evalTree`
+-/
 namespace Rare.Drv.C09
+open Rare Rare.Expr Rare.Proto Rare.C09
+
+/-! Go's UTF-8 decoding (`[]rune(s)`, `range s`): every byte that does not start a well-formed
+    sequence becomes U+FFFD on its own. -/
+def cont (b : UInt8) (lo hi : UInt8) : Bool := lo ≤ b && b ≤ hi
+
+/-- First rune of a non-empty byte string and its width. -/
+def decodeOne (b0 : UInt8) (rest : Bytes) : Char × Nat :=
+  let bad : Char × Nat := (Char.ofNat 0xFFFD, 1)
+  let n0 := b0.toNat
+  if n0 < 0x80 then (Char.ofNat n0, 1)
+  else if 0xC2 ≤ n0 && n0 ≤ 0xDF then
+    match rest with
+    | b1 :: _ => if cont b1 0x80 0xBF then (Char.ofNat ((n0 - 0xC0) * 64 + (b1.toNat - 0x80)), 2) else bad
+    | _ => bad
+  else if 0xE0 ≤ n0 && n0 ≤ 0xEF then
+    let lo : UInt8 := if n0 == 0xE0 then 0xA0 else 0x80
+    let hi : UInt8 := if n0 == 0xED then 0x9F else 0xBF
+    match rest with
+    | b1 :: b2 :: _ =>
+      if cont b1 lo hi && cont b2 0x80 0xBF then
+        (Char.ofNat ((n0 - 0xE0) * 4096 + (b1.toNat - 0x80) * 64 + (b2.toNat - 0x80)), 3)
+      else bad
+    | _ => bad
+  else if 0xF0 ≤ n0 && n0 ≤ 0xF4 then
+    let lo : UInt8 := if n0 == 0xF0 then 0x90 else 0x80
+    let hi : UInt8 := if n0 == 0xF4 then 0x8F else 0xBF
+    match rest with
+    | b1 :: b2 :: b3 :: _ =>
+      if cont b1 lo hi && cont b2 0x80 0xBF && cont b3 0x80 0xBF then
+        (Char.ofNat ((n0 - 0xF0) * 262144 + (b1.toNat - 0x80) * 4096 + (b2.toNat - 0x80) * 64 + (b3.toNat - 0x80)), 4)
+      else bad
+    | _ => bad
+  else bad
+
+def decodeGoF : Nat → Bytes → List Char
+  | 0, _ => []
+  | _, [] => []
+  | f + 1, b0 :: rest =>
+    let (c, w) := decodeOne b0 rest
+    c :: decodeGoF f (rest.drop (w - 1))
+
+def decodeGo (b : Bytes) : List Char := decodeGoF b.length b
+
+def answer (reg : Registry) (opt : Bool) (t : List Char) (ctx : Ctx) : String :=
+  Rare.Drv.Expr.evalWith reg opt t ctx
+
+/-! ### serialised trees: Polish notation, tokens joined by `,`
+
+    L:<hex>:<q>   G:<n>:<lead>:<trail>   K:<hex>:<lead>:<trail>   C:<hex>:<argc>:<lead>:<trail>
+    each argument of a call is preceded by  S:<sep>.   White space: a word over s/t, `-` = empty. -/
+inductive PTree where
+  | node (e : Expr) (ns : NodeStyle) (kids : List PTree)
+
+def parseWs (s : String) : List Bool :=
+  if s = "-" then [] else s.toList.map (· == 't')
+
+def nthSep (seps : List (List Bool)) (i : Nat) : Bool × List Bool :=
+  match seps.getD i [false] with
+  | [] => (false, [])
+  | b :: r => (b, r)
+
+def hexChars (s : String) : Option (List Char) :=
+  (Hex.dec s).bind Rare.Drv.Expr.decodeTemplate
+
+mutual
+def parseNode : Nat → List String → Option (PTree × List String)
+  | 0, _ => none
+  | f + 1, tok :: rest =>
+    match tok.splitOn ":" with
+    | ["L", h, q] => (hexChars h).map fun s => (.node (.lit s) ⟨q == "1", [], [], fun _ => (false, [])⟩ [], rest)
+    | ["G", n, l, t] => n.toNat?.map fun n => (.node (.group n) ⟨false, parseWs l, parseWs t, fun _ => (false, [])⟩ [], rest)
+    | ["K", h, l, t] => (hexChars h).map fun k => (.node (.key k) ⟨false, parseWs l, parseWs t, fun _ => (false, [])⟩ [], rest)
+    | ["C", h, c, l, t] =>
+      match hexChars h, c.toNat? with
+      | some name, some argc =>
+        match parseKids f argc rest with
+        | some (kids, seps, rest') =>
+          let args := kids.map fun | .node e _ _ => e
+          some (.node (.call name args) ⟨false, parseWs l, parseWs t, nthSep seps⟩ kids, rest')
+        | none => none
+      | _, _ => none
+    | _ => none
+  | _, [] => none
+def parseKids : Nat → Nat → List String → Option (List PTree × List (List Bool) × List String)
+  | 0, _, _ => none
+  | _, 0, rest => some ([], [], rest)
+  | f + 1, n + 1, tok :: rest =>
+    match tok.splitOn ":" with
+    | ["S", w] =>
+      match parseNode f rest with
+      | some (k, rest') =>
+        match parseKids f n rest' with
+        | some (ks, seps, rest'') => some (k :: ks, parseWs w :: seps, rest'')
+        | none => none
+      | none => none
+    | _ => none
+  | _, _, [] => none
+end
+
+/-- The style function of a parsed tree: follow the path, answer the node's choices. -/
+def styleAt : List Nat → PTree → NodeStyle
+  | [], .node _ ns _ => ns
+  | i :: q, .node _ ns kids =>
+    match kids[i]? with
+    | some k => styleAt q k
+    | none => ns
+
+def styleOf (t : PTree) : Style := fun p => styleAt p t
+
+def treeOf : PTree → Expr
+  | .node e _ _ => e
+
+def probeFn : List Char → List Bytes → Bytes := probeSem
 
 def handle (args : List String) : String :=
-  match Rare.Drv.Expr.handle args with
-  | some a => a
-  | none => "bad-op"
+  match args with
+  | ["tpl", o, t, el, ks] =>
+    match Hex.dec t, decHexList el, decHexList ks with
+    | some tb, some elems, some keys =>
+      answer testRegistry (o == "1") (decodeGo tb) (Rare.Drv.Expr.mkCtx elems keys)
+    | _, _, _ => "bad-args"
+  | ["lit", o, t] =>
+    match Hex.dec t with
+    | some tb =>
+      let text := decodeGo tb
+      let tpl := escapeLit text
+      let ans := answer testRegistry (o == "1") tpl (Rare.Drv.Expr.mkCtx [] [])
+      if ans != s!"ok errs=. val={Hex.enc (utf8 text)}" then s!"spec-violation model {ans}"
+      else s!"{ans} tpl={Hex.enc (encodeRunes tpl)}"
+    | none => "bad-args"
+  | ["split", t] =>
+    match Hex.dec t with
+    | some tb => s!"ok {hexList ((splitArgs (decodeGo tb)).map encodeRunes)}"
+    | none => "bad-args"
+  | ["tree", o, toks, el, ks] =>
+    match decHexList el, decHexList ks with
+    | some elems, some keys =>
+      let tl := toks.splitOn ","
+      match parseNode (tl.length + 1) tl with
+      | some (pt, []) =>
+        let ctx := Rare.Drv.Expr.mkCtx elems keys
+        let tpl := printTop (styleOf pt) (treeOf pt)
+        let spec := evalTree (envOf ctx probeFn) (treeOf pt)
+        let ans := answer testRegistry (o == "1") tpl ctx
+        if ans != s!"ok errs=. val={Hex.enc spec}" then
+          s!"spec-violation model {ans} tpl={Hex.enc (encodeRunes tpl)} spec={Hex.enc spec}"
+        else s!"{ans} tpl={Hex.enc (encodeRunes tpl)} spec={Hex.enc spec}"
+      | _ => "bad-args"
+    | _, _ => "bad-args"
+  | _ =>
+    match Rare.Drv.Expr.handle args with
+    | some a => a
+    | none => "bad-op"
 
 end Rare.Drv.C09
